@@ -241,7 +241,23 @@ func (p *persistentSnapshotStorage) SnapshotFile() (SnapshotFile, error) {
 	if len(dirNames) == 0 {
 		return nil, nil
 	}
-	dirName := dirNames[len(dirNames)-1]
+
+	// The directories are ordered by the time the snapshots were created. A snapshot that is
+	// received in several requests may be completed after a snapshot that was created later,
+	// so the last directory is not necessarily the most up-to-date snapshot: choose the
+	// snapshot with the greatest last included index.
+	var dirName string
+	var metadata SnapshotMetadata
+	for _, name := range dirNames {
+		candidate, err := readMetadata(name)
+		if err != nil {
+			return nil, err
+		}
+		if dirName == "" || candidate.LastIncludedIndex >= metadata.LastIncludedIndex {
+			dirName = name
+			metadata = candidate
+		}
+	}
 
 	// Make the file containing the snapshot data prepared for reading.
 	dataFile, err := os.Open(filepath.Join(dirName, snapshotBase))
@@ -249,21 +265,25 @@ func (p *persistentSnapshotStorage) SnapshotFile() (SnapshotFile, error) {
 		return nil, fmt.Errorf("could not open snapshot data file: %w", err)
 	}
 
-	// Read the metadata from the metadata file.
-	metadataFile, err := os.Open(filepath.Join(dirName, metadataBase))
-	if err != nil {
-		return nil, fmt.Errorf("could not open snapshot metadata file: %w", err)
-	}
-	metadata, err := decodeMetadata(metadataFile)
-	if err != nil {
-		return nil, fmt.Errorf("could not decode snapshot metadata: %w", err)
-	}
-
 	return &snapshotFile{
 		ReadWriteSeeker: dataFile,
 		file:            dataFile,
 		metadata:        metadata,
 	}, nil
+}
+
+// readMetadata reads the metadata of the snapshot in the provided directory.
+func readMetadata(dirName string) (SnapshotMetadata, error) {
+	metadataFile, err := os.Open(filepath.Join(dirName, metadataBase))
+	if err != nil {
+		return SnapshotMetadata{}, fmt.Errorf("could not open snapshot metadata file: %w", err)
+	}
+	defer metadataFile.Close()
+	metadata, err := decodeMetadata(metadataFile)
+	if err != nil {
+		return SnapshotMetadata{}, fmt.Errorf("could not decode snapshot metadata: %w", err)
+	}
+	return metadata, nil
 }
 
 func (p *persistentSnapshotStorage) directories() ([]string, error) {
